@@ -44,6 +44,8 @@ def cases(tier, seed):
                     yield {"kind": "ctor", "ctor": "from_batch_mvn", "n": n, "t": t, "batch": b, "task_dim": td, "crep": crep, "seed": rnd.randrange(10**6)}
             if t >= 2:  # documented: at least 2 MVNs
                 yield {"kind": "ctor", "ctor": "from_independent_mvns", "n": n, "t": t, "batch": b, "crep": crep, "seed": rnd.randrange(10**6)}
+                if crep != "mixed":
+                    yield {"kind": "ctor", "ctor": "from_independent_mvns", "n": n, "t": t, "batch": b, "crep": crep, "shared_cov": "operator" if crep == "dense" else "object", "seed": rnd.randrange(10**6)}
             if crep != "mixed":
                 yield {"kind": "ctor", "ctor": "from_repeated_mvn", "n": n, "t": t, "batch": b, "crep": crep, "seed": rnd.randrange(10**6)}
     # indexing
@@ -258,6 +260,13 @@ def _ctor(case, ctx, g):
     elif name == "from_independent_mvns":
         means = [util.randn(g, *b, n) for _ in range(t)]
         pairs = [wrap(_spd(g, *b, n), k) for k in range(t)]
+        if case.get("shared_cov"):
+            # ONE covariance object (tensor or operator) handed to every member, different means
+            from linear_operator import to_linear_operator
+
+            one = wrap(_spd(g, *b, n), 0)
+            obj = to_linear_operator(one[0]) if case["shared_cov"] == "operator" and torch.is_tensor(one[0]) else one[0]
+            pairs = [(obj, one[1]) for _ in range(t)]
         covl = [p_[1] for p_ in pairs]
         d = MT.from_independent_mvns([MVN(m, p_[0]) for m, p_ in zip(means, pairs)])
         Mref = torch.stack(means, -1)
@@ -309,12 +318,20 @@ def _index(case, ctx, g):
     Bsel, Psel = Bfull[idx_arg], Pfull[idx_arg]
     kinds = [IX.kind(e) for e in case["idx"]]
     cell = {"n": n, "t": t, "batch": b, "inter": case["interleaved"], "kinds": kinds}
+    # when the same index tensor is asked for at two positions, ONE tensor object is passed (as a user writing d[..., ix, ix])
+    tens = [e for e in idx if torch.is_tensor(e)]
+    if len(tens) >= 2 and all(torch.equal(tens[0], e) for e in tens[1:]):
+        idx = tuple(tens[0] if torch.is_tensor(e) else e for e in idx)
+        idx_arg = idx if len(idx) != 1 else idx[0]
+        ctx.hit("info:one_index_tensor_object_at_two_positions")
+    before = [(e, e.clone()) for e in idx if torch.is_tensor(e)]
     try:
         sub = d[idx_arg]
     except Exception as e:
         ctx.fail("index_raises", f"d[{case['idx']}] raised {type(e).__name__}: {str(e)[:160]}", "raise", exc=type(e).__name__, kinds=kinds)
         ctx.cell(cell)
         return
+    ctx.expect("index_tensors_not_mutated", all(torch.equal(e, c_) for e, c_ in before), f"d[{case['idx']}] changed the caller's index tensor in place", kinds=kinds)
     if not ctx.close("index_mean", sub.mean, Mref, "bit", cls="index:mean", kinds=kinds):
         ctx.cell(cell)
         return
